@@ -16,7 +16,7 @@
  *     the SDU is complete after the commit
  *   - the radio's receive side is empty: nothing is delivered
  *
- * case parameters: CFG (shims/sdu.cpp), TXMAX, ROUNDS
+ * case parameters: CFG (shims/sdu.cpp), TXMAX, ROUNDS, N payload size of the SDU (-1: symbolic)
  */
 #include "vf.h"
 
@@ -94,6 +94,7 @@ void harness(void)
 
     /* inputs */
     unsigned n = (unsigned)in_range(0, mtu);
+    if ((long)CASE(N) >= 0) n = (unsigned)CASE(N);      /* case split: SDU payload size (assigned, so that all copy sizes are constants) */
     uint8_t content[80];
     in_bytes(content, mtu + 4 + llo);
     for (int i = 0; i < MAXREQ; ++i) avail[i] = in_bool();
